@@ -265,7 +265,7 @@ func Select(hasDefault bool, cases ...Case) int {
 		if len(r) == 0 {
 			return -1
 		}
-		return r[s.pick(len(r), false, 'c', func() string { return "select-arm" })]
+		return r[s.pick(len(r), false, 'a', func() string { return "select-arm" })]
 	}
 	for _, cs := range cases {
 		if cs.c != nil && !cs.send {
@@ -279,7 +279,7 @@ func Select(hasDefault bool, cases ...Case) int {
 		}
 	}
 	r := readyIdx()
-	return r[s.pick(len(r), false, 'c', func() string { return "select-arm" })]
+	return r[s.pick(len(r), false, 'a', func() string { return "select-arm" })]
 }
 
 // RecvNow completes a receive arm chosen by Select.
